@@ -39,13 +39,24 @@ impl Decoder for Codec {
     type Error = io::Error;
 
     fn decode(&mut self, src: &mut BytesMut) -> Result<Option<Self::Item>, Self::Error> {
-        let Ok((len, rest)) = unsigned_varint::decode::usize(&src[..]) else {
-            return Ok(None);
+        let (len, rest) = match unsigned_varint::decode::usize(&src[..]) {
+            Ok(res) => res,
+            // Length prefix is not complete yet
+            Err(unsigned_varint::decode::Error::Insufficient) => return Ok(None),
+            // Length prefix is not a valid varint
+            Err(_) => return Err(io::Error::other("Invalid length prefix")),
         };
 
         let varint_len = src.len() - rest.len();
 
-        if varint_len > MAX_MESSAGE_SIZE {
+        // If the prefix does not re-encode to the same number of bytes, then its
+        // value was truncated while decoding, i.e. it overflows `usize`.
+        let mut varint_buf = unsigned_varint::encode::usize_buffer();
+        if unsigned_varint::encode::usize(len, &mut varint_buf).len() != varint_len {
+            return Err(io::Error::other("Invalid length prefix"));
+        }
+
+        if len > MAX_MESSAGE_SIZE {
             return Err(io::Error::other("Message too large"));
         }
 
